@@ -8,6 +8,8 @@ mod bfs;
 mod props_paths;
 mod props_bounds;
 mod props_prm;
+mod props_repro;
+mod entropy;
 mod props_space;
 mod props_uniform;
 mod lattice;
@@ -46,6 +48,7 @@ fn main() {
                 "C11" => props_bounds::run_c11(tier),
                 "C12" => props_bounds::run_c12(tier),
                 "C14" => props_uniform::run(tier),
+                "C07" => props_repro::run(tier),
                 _ => usage(),
             }
         }
@@ -58,6 +61,7 @@ fn main() {
                 Some("paths") => props_paths::replay(r),
                 Some("tree") => props_tree::replay_file(r),
                 Some("prm") => props_prm::replay_file(r),
+                Some("repro") => props_repro::replay_file(r),
                 _ => usage(),
             }
         }
